@@ -184,6 +184,8 @@ def rand_meta(rng, c):
     k = rng.random()
     c["ct"] = None if k < 0.35 else enc(rng.choice([1, 3, 120])) if k < 0.45 else \
         enc(abs(rand_float(rng)) or 0.5)
+    # the time as a numpy scalar (np.sum of step times, a perf-counter difference held in an array): same number
+    c["ct_np"] = c["ct"] is not None and rng.random() < 0.3
     c["pn"] = None if rng.random() < 0.4 else rng.choice(
         ["Intel Core i7-8550U CPU @ 1.80GHz", "cpu", "", "AMD <Ryzen> & \"co\"", "x y  z", "a'b", "Prozessor üß", "auto"])
 
@@ -310,6 +312,8 @@ def build_solution(c):
         warnings.simplefilter("ignore")
         sid = ScenarioID.from_benchmark_id(c["sid"], c["ver"])
     ct = None if c["ct"] is None else dec(c["ct"])
+    if c.get("ct_np"):
+        ct = np.float64(ct) if isinstance(ct, float) else np.int64(ct)
     so = sol.Solution(sid, [r[1] for r in res], date=date_of(c), computation_time=ct, processor_name=c["pn"])
     if c.get("reid"):
         res[c["reid"][0]][1].planning_problem_id = c["reid"][1]
